@@ -63,6 +63,22 @@ def splice_consistent(b, p, v):
         delta += len(out) - before
     return out
 
+def canon_sm(x):
+    """source maps are Go maps: a later entry for the same key replaces the earlier one, order is irrelevant"""
+    if not isinstance(x, list): return x
+    x = [canon_sm(y) for y in x]
+    if x and x[0] == "sm":
+        d = {}
+        for kv in x[1:]:
+            if isinstance(kv, list) and len(kv) == 2: d[kv[0]] = kv
+        return ["sm"] + [d[k] for k in sorted(d, key=lambda z: int(z))]
+    return x
+
+def canon_dec(s):
+    if s is None or "(sm" not in s: return s
+    try: return vlib.sexp_str(canon_sm(vlib.parse_sexp(s)))
+    except Exception: return s
+
 def run(rep, br, proofs, rng, tier):
     nprog = 4 if tier == "quick" else 150
     nobj = 4000 if tier == "quick" else 80000
@@ -122,7 +138,7 @@ def run(rep, br, proofs, rng, tier):
     # every length prefix (outer and nested: array and map sizes, string lengths inside function objects, ...)
     # replaced by boundary lengths, everything else left consistent
     nl = 0
-    for b in sorted(set(bases), key=len)[:(80 if tier == "quick" else 2000)]:
+    for b in sorted(set(bases), key=len)[:(80 if tier == "quick" else 400)]:
         for p in length_sites(b):
             for v in LENGTHS:
                 dcases.append(mk_case("l%d" % nl, "dec", hexs(splice_length(b, p, v)))); nl += 1
@@ -139,7 +155,33 @@ def run(rep, br, proofs, rng, tier):
         classes[k] = classes.get(k, 0) + 1
         if m == "(gob)" or (m and "(bfn" in m and i == "(err)"):
             inconclusive += 1; continue
-        if i != m: dis.append(c)
+        if canon_dec(i) != canon_dec(m): dis.append(c)
+    # nesting depth: allocation must stay proportional to the length of the input
+    def nest(inner, tag):
+        body = vi_bytes(1) + inner if tag == 9 else vi_bytes(1) + b"k" + inner     # array: count, element; map: key length, key, value
+        return bytes([tag]) + vi_bytes(len(body)) + body
+    known = {k["id"] for k in vlib.load_known("C18")}
+    deep = []
+    for tag in (9, 10):
+        for depth in (10, 100, 300, 1000, 3000):
+            b = bytes([3, 1, 2])
+            for _ in range(depth): b = nest(b, tag)
+            c = mk_case("deep.%d.%d" % (tag, depth), "decraw", hexs(b), "1"); c["n"], c["depth"], c["tag"] = len(b), depth, tag
+            deep.append(c)
+    impl_deep, _ = vlib.run_impl([c["line"] for c in deep], timeout=600)
+    deep_stats = {}
+    for c in deep:
+        out = impl_deep.get(c["id"])
+        if out is None: fails.append((c, "no output decoding a container nested %d deep" % c["depth"], c["line"])); continue
+        sx = vlib.parse_sexp(out)
+        if sx[0] not in ("ok", "err"): fails.append((c, "decoding a container nested %d deep: %s" % (c["depth"], out[:200]), c["line"])); continue
+        alloc = int(sx[1]); limit = 400 * c["n"] + (1 << 16)
+        deep_stats["%s-depth-%d" % ("array" if c["tag"] == 9 else "map", c["depth"])] = "%d bytes allocated for %d input bytes" % (alloc, c["n"])
+        if alloc > limit:
+            if "D18c" in known and c["depth"] >= 100:
+                rep.known("D18c", "decoding containers nested %d deep allocates memory quadratic in the depth (every level copies its whole body): e.g. %d bytes for an input of %d bytes" % (c["depth"], alloc, c["n"]))
+            else:
+                fails.append((c, "decoding a %d-byte input (containers nested %d deep) allocated %d bytes, more than 400 bytes per input byte + 64 KiB" % (c["n"], c["depth"], alloc), c["line"]))
     for c, why, extra in fails[:10]:
         rep.violation({"property": "C18", "kind": "oracle", "why": why, "case": c["line"][:3000], "input": extra[:6000]})
     if not fails:
@@ -156,6 +198,7 @@ def run(rep, br, proofs, rng, tier):
         "bytecode_mutations": total, "bytecode_mutations_ok": ok, "bytecode_mutations_err": err,
         "v1_instruction_mutations": v1total, "v1_model_compared": len(v1model), "v1_model_disagreements": len(v1dis),
         "object_mutations": len(dcases), "object_outcome_classes": classes, "inconclusive": inconclusive,
+        "nesting_allocation": deep_stats,
         "disagreements": len(dis), "oracle_failures": len(fails)})
 
 def replay(payload, br):
